@@ -411,9 +411,27 @@ func (p *CodeBuilder) Slice(slice3 bool, src ...ast.Node) *CodeBuilder { // a[i:
 	args := p.stk.GetArgs(n)
 	x := args[0]
 	typ := x.Type
+retry:
 	switch t := typ.(type) {
 	case *types.Slice:
 		// nothing to do
+	case *types.Named:
+		if u := p.getUnderlying(t); u != typ {
+			if _, ok := u.(*types.Slice); ok { // a slice of a named slice type keeps the named type
+				break
+			}
+			if b, ok := u.(*types.Basic); ok && b.Info()&types.IsString != 0 {
+				break
+			}
+			typ = u
+			goto retry
+		}
+	case *types.Alias:
+		typ = types.Unalias(t)
+		goto retry
+	default:
+		code, pos, end := p.loadExpr(x.Src)
+		p.panicCodeErrorf(pos, end, "cannot slice %s (type %v)", code, x.Type)
 	case *types.Basic:
 		if t.Kind() == types.String || t.Kind() == types.UntypedString {
 			if slice3 {
@@ -438,7 +456,11 @@ func (p *CodeBuilder) Slice(slice3 bool, src ...ast.Node) *CodeBuilder { // a[i:
 	if slice3 {
 		exprMax = args[3].Val
 	}
-	// TODO: check type
+	for _, idx := range args[1:] {
+		if idx.Val != nil { // an omitted index is a placeholder without value
+			p.checkIndexType(idx, tyInt, ivFalse)
+		}
+	}
 	elem := &internal.Elem{
 		Val: &ast.SliceExpr{
 			X: x.Val, Low: args[1].Val, High: args[2].Val, Max: exprMax, Slice3: slice3,
